@@ -19,7 +19,7 @@ RULE = ("cases = (day, ms) pairs: all 65536 days x ms in {0,1,999,1000,43200000,
 TRUSTED = ["CPython 3.12 datetime (proleptic Gregorian calendar arithmetic)", "spverif.ref.cds (integer arithmetic only)"]
 ASSUMPTIONS = ["oracle = exact integer / datetime arithmetic from 1958-01-01T00:00:00Z (spverif/ref/cds.py); the day offset 4383 is computed by the calendar, not copied",
                "as_unix_seconds is a float: compared within 1 microsecond; as_datetime must equal the instant exactly",
-               "ms_of_today, now() and the deprecated aliases are informational"]
+               "ms_of_today with a finer-than-millisecond argument, now() and the deprecated aliases are informational"]
 UTC = dt.timezone.utc
 MS = R.MS_PER_DAY
 
@@ -56,6 +56,18 @@ def k_stamp(ctx, days, ms):
     ok, s = attempt(t.as_unix_seconds)
     exact_ms = R.unix_seconds_exact(days, ms)
     ctx.check("cds.as_unix_seconds", ok and abs(s * 1000.0 - exact_ms) < 0.001, "value_differs", f"{era}/{tod}", case, observed=s, expected_ms=exact_ms)
+    if (days + ms) % 16 == 0:
+        # the other public routes to the same stamp and the same views: Unix-day constructor, deprecated aliases, text form
+        import warnings
+        ok, t2 = attempt(T.from_unix_days, days - R.UNIX_DAY_OFFSET, ms)
+        ctx.check("cds.alt_routes", ok and (t2.ccsds_days, t2.ms_of_day) == (days, ms) and bytes(t2.pack()) == want and t2 == t and t2.as_datetime() == inst, "from_unix_days", era, case,
+                  observed=repr(t2))
+        with warnings.catch_warnings():
+            warnings.simplefilter("ignore")
+            ok, v = attempt(lambda: (t.as_date_time(), T.from_date_time(inst), t.as_time_string()))
+        ctx.check("cds.alt_routes", ok and v[0] == inst and (v[1].ccsds_days, v[1].ms_of_day) == (days, ms) and v[2] == inst.strftime("%Y-%m-%d %H:%M:%S.%f"), "deprecated_alias_or_text_form_differs",
+                  era, case, observed=repr(v))
+        ctx.table("alt_routes", "from_unix_days+aliases")
     return t
 
 
@@ -102,6 +114,10 @@ def k_from_datetime(ctx, iso_us):
     ctx.check("cds.from_datetime", ok and bytes(p) == R.encode(*got), "pack_after_from_datetime", era, case)
     ok, d2 = attempt(t.as_datetime)
     ctx.check("cds.from_datetime", ok and d2 == d, "as_datetime_is_not_the_input", era, case, observed=repr(d2))
+    # the Unix-seconds view of the new stamp, read before anything recomputes it (within the millisecond that may be dropped)
+    exact = (iso_us - R.UNIX_DAY_OFFSET * 86_400_000_000) / 1e6
+    ok, us = attempt(t.as_unix_seconds)
+    ctx.check("cds.from_datetime", ok and abs(us - exact) < (1e-5 if whole == "whole_ms" else 1.1e-3), "unix_seconds_after_from_datetime", f"{era}/{whole}", case, observed=repr(us), expected=exact)
 
 
 def k_add(ctx, days, ms, td_days, td_s, td_us):
@@ -211,7 +227,19 @@ def k_stamp_history(ctx, seed):
             return
 
 
-KINDS = {"stamp_history": k_stamp_history, "stamp": k_stamp, "monotonic": k_monotonic, "from_datetime": k_from_datetime, "add": k_add, "first_octet": k_first_octet}
+def k_ms_of_today(ctx, k_ms, as_int=False):
+    """The static helper with an explicit argument that is a whole number of milliseconds (k_ms / 1000 seconds since the Unix
+    epoch; whole seconds may be given as int): the millisecond of that day, exactly.  (Arguments with a finer fraction are
+    outside what the property states and stay informational.)"""
+    T = _cls()
+    arg = k_ms // 1000 if as_int and k_ms % 1000 == 0 else k_ms / 1000
+    case = {"k": "ms_of_today", "k_ms": k_ms, "as_int": as_int}
+    ctx.case("ms_of_today", (k_ms, as_int), sample=case)
+    ok, v = attempt(T.ms_of_today, arg)
+    ctx.check("cds.ms_of_today", ok and v == k_ms % MS, "differs_from_millisecond_of_that_day", "epoch" if k_ms == 0 else "pre1970" if k_ms < 0 else "post1970", case, observed=repr(v), expected=k_ms % MS, argument=repr(arg))
+
+
+KINDS = {"ms_of_today": k_ms_of_today, "stamp_history": k_stamp_history, "stamp": k_stamp, "monotonic": k_monotonic, "from_datetime": k_from_datetime, "add": k_add, "first_octet": k_first_octet}
 MAX_US = (65536 * MS - 1) * 1000 + 999
 
 
@@ -296,7 +324,20 @@ def run(ctx):
     for n in range(0, 7):
         k_first_octet(ctx, 0x40, n)
     ctx.exhaustive.append("all 256 first octets; all input lengths 0..6")
+    for k in (0, 1, 999, 1000, 1001, MS - 1, MS, MS + 1, 86_400_000 * 4383, -1, -1000, -MS, -MS - 1, 1_700_000_000_000, 1_700_000_000_123):
+        k_ms_of_today(ctx, k)
+        k_ms_of_today(ctx, k, as_int=True)
+    for _ in range(ctx.n(300, 30_000)):
+        k_ms_of_today(ctx, r.randrange(-400_000_000_000, 5_000_000_000_000), as_int=bool(r.getrandbits(1)))
     T = _cls()
+    # now(): a stamp of the present, between two readings of the clock (whole milliseconds)
+    for _ in range(20):
+        t0 = dt.datetime.now(tz=UTC)
+        ok, n = attempt(T.now)
+        t1 = dt.datetime.now(tz=UTC)
+        lo, hi = R.from_datetime(t0), R.from_datetime(t1)
+        ctx.check("cds.alt_routes", ok and lo <= (n.ccsds_days, n.ms_of_day) <= hi and bytes(n.pack()) == R.encode(n.ccsds_days, n.ms_of_day), "now_is_not_now", "", {"k": "now"},
+                  observed=repr(n), between=[lo, hi])
     ok, v = attempt(T.ms_of_today, 86399.9995)
     ctx.note(f"ms_of_today(86399.9995) -> {v!r}")
 
